@@ -92,3 +92,49 @@ theorem renderOpen_addStyle (t : HTag) (n v : String) :
   simp [renderOpen, renderAttributes, addStyle]
 
 end Gomjml.Tag
+
+namespace Gomjml.Tag
+
+/-! ### `BaseComponent.ApplyInlineStyles`: for every class of the class attribute (in attribute order) that an inline rule
+    targets, append that rule's declarations (in declaration order) to the tag's styles -/
+
+abbrev Rules := List (String × List (String × String))     -- class ↦ ordered declarations (RenderOpts.InlineClassStyles)
+
+def declsFor (rules : Rules) (classes : List String) : List (String × String) :=
+  classes.flatMap (fun c => (rules.lookup c).getD [])
+
+def applyInline (rules : Rules) (t : HTag) (classes : List String) : HTag :=
+  (declsFor rules classes).foldl (fun t d => addStyle t d.1 d.2) t
+
+theorem foldl_addStyle (ds : List (String × String)) (t : HTag) :
+    (ds.foldl (fun t d => addStyle t d.1 d.2) t) = { t with styles := t.styles ++ ds } := by
+  induction ds generalizing t with
+  | nil => simp
+  | cons d r ih =>
+    simp only [List.foldl_cons]
+    rw [ih (addStyle t d.1 d.2)]
+    simp [addStyle, List.append_assoc]
+
+/-- **inline styles touch nothing but the style list**, and they add exactly the targeted rules' declarations, in order -/
+theorem applyInline_eq (rules : Rules) (t : HTag) (classes : List String) :
+    applyInline rules t classes = { t with styles := t.styles ++ declsFor rules classes } := by
+  unfold applyInline; exact foldl_addStyle _ t
+
+/-- … hence the rendered open tag differs only inside ` style="…"`: name, attribute group and class group are write-for-write
+    the same -/
+theorem renderOpen_applyInline (rules : Rules) (t : HTag) (classes : List String) :
+    renderOpen (applyInline rules t classes) =
+      ["<", t.name] ++ t.attrs.flatMap attrWrites ++ classWrites t.classes ++ stylesWrites (t.styles ++ declsFor rules classes) ++ [">"] := by
+  rw [applyInline_eq]; simp [renderOpen, renderAttributes]
+
+/-- without a targeted class nothing changes at all -/
+theorem applyInline_none (rules : Rules) (t : HTag) (classes : List String) (h : ∀ c ∈ classes, rules.lookup c = none) :
+    applyInline rules t classes = t := by
+  rw [applyInline_eq]
+  have : declsFor rules classes = [] := by
+    unfold declsFor
+    rw [List.flatMap_eq_nil_iff]
+    intro c hc; simp [h c hc]
+  simp [this]
+
+end Gomjml.Tag
